@@ -345,15 +345,7 @@ func (w *sizeWalker) rangeLoop(rs *ast.RangeStmt) (Poly, error) {
 	if err != nil {
 		return nil, err
 	}
-	wrap := func(p Poly) Poly {
-		if len(p) == 0 {
-			return Poly{}
-		}
-		if c, ok := p.isConst(); ok {
-			return Poly{"len(" + coll + ")": c}
-		}
-		return pAtom("sum(" + coll + "){" + p.String() + "}")
-	}
+	wrap := func(p Poly) Poly { return pSum(coll, p) }
 	for o, before := range accs {
 		w.polys[o] = before.add(wrap(w.polys[o]))
 	}
